@@ -69,7 +69,8 @@ static const nspell NSP[] = {
 };
 #define NNSP ((int)(sizeof NSP / sizeof NSP[0]))
 static const char *PCTX[] = {"%s", "x%s", "%%d%s", "v=%%d;%s"};   /* printf contexts: %%d consumes an int before */
-static const char *SCTX[] = {"%s", "%%d%s", "%%d %s%%d"};         /* scanf contexts */
+static const char *SCTX[] = {"%s", "%%d%s", "%%d %s%%d", "%%3[0-9]%s", "%%d%s%%3[0-9]", "%%3[0-9]%s]"};   /* scanf contexts; 3..5: scansets before / after the directive, a literal ']' after it */
+#define NSCTX 6
 
 enum { K_CALLS, K_C09, K_NFORMATS, K_WBUF, K_DEATH, K_NUM };
 static const char *KN[] = {"calls", "c09_decided", "n_formats", "wide_buffer_calls_checked", "worker_deaths"};
@@ -97,7 +98,7 @@ static void set_file(FILE *f, const char *text, int wide) {
     fflush(f); rewind(f);
 }
 
-static void run_printf_w(int t, const nspell *ns, int ctx) {
+static void run_printf_w(int t, const nspell *ns, int ctx, int primed) {
     char fmt[64]; wchar_t wfmt[64]; varg_t a[4]; int na = 0; char obs[200];
     snprintf(fmt, sizeof fmt, PCTX[ctx], ns->spell); towide(wfmt, fmt);
     memset(a, 0, sizeof a);
@@ -107,10 +108,15 @@ static void run_printf_w(int t, const nspell *ns, int ctx) {
     size_t dmax = 40; wchar_t *dest = place_end(0, dmax * sizeof(wchar_t)); for (size_t i = 0; i < dmax; i++) dest[i] = 0x61 + (wchar_t)(i % 26);
     P_wdest = dest; P_n = dmax; P_b = dmax * sizeof(wchar_t); P_wfmt = wfmt; P_stream = g_tmpw; P_ret = -99999;
     if (t == W_FWPRINTF || t == W_VFWPRINTF) set_file(g_tmpw, "", 1);
+    if (primed) {   /* history: the very same format buffer first holds a harmless format and is accepted; then its content changes */
+        wchar_t keep[64]; memcpy(keep, wfmt, sizeof keep); towide(wfmt, "ok"); call_target(t, a, na); memcpy(wfmt, keep, sizeof keep);
+        for (size_t i = 0; i < dmax; i++) dest[i] = 0x61 + (wchar_t)(i % 26); SENT[0] = POISON;
+        if (t == W_FWPRINTF || t == W_VFWPRINTF) set_file(g_tmpw, "", 1);
+    }
     probes_reset();
     g_shm->in_call = 1; g_cur_fn = TN[t]; FENCED(call_target(t, a, na)); g_shm->in_call = 0;
     K[K_CALLS]++; K[K_C09]++;
-    {   char b[120]; snprintf(b, sizeof b, "%s;%s;%d", TN[t], ns->cls, ctx); distinct_add(hash_str(b)); }
+    {   char b[120]; snprintf(b, sizeof b, "%s;%s;%d;%d", TN[t], ns->cls, ctx, primed); distinct_add(hash_str(b)); }
     if (g_fence.faulted) { snprintf(obs, sizeof obs, "%s fault during a format with a %%n directive", g_fence.is_write ? "WRITE" : "READ"); vio(g_fence.is_write ? "C01" : "C02", t, g_fence.is_write ? "W-fault" : "R-fault", ns->cls, fmt, obs); return; }
     if (SENT[0] != POISON) { snprintf(obs, sizeof obs, "the %%n target was written: %#llx (ret %d)", (unsigned long long)SENT[0], P_ret); vio("C09", t, "n-directive-executed", ns->cls, fmt, obs); }
     if (P_ret >= 0 || g_h.count == 0) { snprintf(obs, sizeof obs, "returned %d with %d handler invocations", P_ret, g_h.count); vio("C09", t, "n-format-not-rejected", ns->cls, fmt, obs); }
@@ -122,7 +128,7 @@ static void run_printf_w(int t, const nspell *ns, int ctx) {
     }
     if (t == W_WPRINTF || t == W_VWPRINTF) fflush(stdout);
 }
-static void run_scanf(int t, const nspell *ns, int ctx) {
+static void run_scanf(int t, const nspell *ns, int ctx, int primed) {
     char fmt[64]; wchar_t wfmt[64], win[32]; varg_t a[4]; int na = 0; char obs[200];
     snprintf(fmt, sizeof fmt, SCTX[ctx], ns->spell); towide(wfmt, fmt);
     const char *input = strstr(ns->spell, "%%%%") ? "12%% 34" : strstr(ns->spell, "%%") ? "12% 34" : "12 34";
@@ -132,17 +138,25 @@ static void run_scanf(int t, const nspell *ns, int ctx) {
     if (ctx >= 1) a[na++].g = (long long)(intptr_t)&SINK[0];
     if (ns->star) { /* '*' in scanf suppresses assignment: no argument */ }
     SENT[0] = POISON; if (!ns->star) a[na++].g = (long long)(intptr_t)&SENT[0];
-    if (ctx == 2) a[na++].g = (long long)(intptr_t)&SINK[1];
+    if (ctx == 2 || ctx == 4) a[na++].g = (long long)(intptr_t)&SINK[1];
     P_fmt = fmt; P_wfmt = wfmt; P_in = input; P_win = win; P_ret = -99999;
     int wide = t >= S_SWSCANF;
     if (t == S_FSCANF || t == S_VFSCANF) { set_file(g_tmpn, input, 0); P_stream = g_tmpn; }
     if (t == S_FWSCANF || t == S_VFWSCANF) { set_file(g_tmpw, input, 1); P_stream = g_tmpw; }
     if (t == S_SCANF || t == S_VSCANF || t == S_WSCANF || t == S_VWSCANF) set_stdin(input);
     (void)wide;
+    if (primed) {   /* the same format buffers first hold a harmless format */
+        char keep[64]; wchar_t wkeep[64]; varg_t pa[1]; memcpy(keep, fmt, sizeof keep); memcpy(wkeep, wfmt, sizeof wkeep);
+        strcpy(fmt, "%d"); towide(wfmt, fmt); pa[0].g = (long long)(intptr_t)&SINK[3]; pa[0].cls = 0; call_target(t, pa, 1);
+        memcpy(fmt, keep, sizeof keep); memcpy(wfmt, wkeep, sizeof wkeep); SENT[0] = POISON;
+        if (t == S_FSCANF || t == S_VFSCANF) set_file(g_tmpn, input, 0);
+        if (t == S_FWSCANF || t == S_VFWSCANF) set_file(g_tmpw, input, 1);
+        if (t == S_SCANF || t == S_VSCANF || t == S_WSCANF || t == S_VWSCANF) set_stdin(input);
+    }
     probes_reset();
     g_shm->in_call = 1; g_cur_fn = TN[t]; FENCED(call_target(t, a, na)); g_shm->in_call = 0;
     K[K_CALLS]++; K[K_C09]++;
-    {   char b[120]; snprintf(b, sizeof b, "%s;%s;%d", TN[t], ns->cls, ctx); distinct_add(hash_str(b)); }
+    {   char b[120]; snprintf(b, sizeof b, "%s;%s;%d;%d", TN[t], ns->cls, ctx, primed); distinct_add(hash_str(b)); }
     if (g_fence.faulted) { snprintf(obs, sizeof obs, "%s fault", g_fence.is_write ? "WRITE" : "READ"); vio(g_fence.is_write ? "C01" : "C02", t, g_fence.is_write ? "W-fault" : "R-fault", ns->cls, fmt, obs); return; }
     if (ns->star) return;     /* %*n: nothing to store by definition; rejection is checked for the other spellings */
     if (SENT[0] != POISON) { snprintf(obs, sizeof obs, "the %%n target was written: %#llx (ret %d, input '%s')", (unsigned long long)SENT[0], P_ret, input); vio("C09", t, "n-directive-executed", ns->cls, fmt, obs); }
@@ -153,9 +167,9 @@ static void body(void *arg, long lo, long hi) {
     (void)arg; (void)hi; int wgroup = !strcmp(g_group, "w");
     for (int s = 0; s < NNSP; s++) {
         K[K_NFORMATS]++;
-        if (wgroup) { for (int t = W_SWPRINTF; t <= W_VWPRINTF; t++) for (int c = 0; c < 4; c++) { long id = s * 1000 + t * 10 + c; if (id < lo) continue; g_shm->cur = id; run_printf_w(t, &NSP[s], c); }
-                      for (int t = S_SWSCANF; t <= S_VWSCANF; t++) for (int c = 0; c < 3; c++) { long id = s * 1000 + t * 10 + c; if (id < lo) continue; g_shm->cur = id; run_scanf(t, &NSP[s], c); } }
-        else for (int t = S_SSCANF; t <= S_VSCANF; t++) for (int c = 0; c < 3; c++) { long id = s * 1000 + t * 10 + c; if (id < lo) continue; g_shm->cur = id; run_scanf(t, &NSP[s], c); }
+        if (wgroup) { for (int t = W_SWPRINTF; t <= W_VWPRINTF; t++) for (int c = 0; c < 4; c++) { long id = s * 1000 + t * 10 + c; if (id < lo) continue; g_shm->cur = id; run_printf_w(t, &NSP[s], c, 0); run_printf_w(t, &NSP[s], c, 1); }
+                      for (int t = S_SWSCANF; t <= S_VWSCANF; t++) for (int c = 0; c < NSCTX; c++) { long id = s * 1000 + t * 10 + c; if (id < lo) continue; g_shm->cur = id; run_scanf(t, &NSP[s], c, 0); run_scanf(t, &NSP[s], c, 1); } }
+        else for (int t = S_SSCANF; t <= S_VSCANF; t++) for (int c = 0; c < NSCTX; c++) { long id = s * 1000 + t * 10 + c; if (id < lo) continue; g_shm->cur = id; run_scanf(t, &NSP[s], c, 0); run_scanf(t, &NSP[s], c, 1); }
     }
     for (int i = 0; i < K_NUM; i++) __sync_fetch_and_add(&CTR(i), K[i]); distinct_emit();
 }
